@@ -255,3 +255,129 @@ func firstRuneOf(n ast.Node, src []byte) (rune, bool) {
 	}
 	return 0, false
 }
+
+// ---------- position dump (read by lean/Driver/WfAst.lean; the formal statement of C05 is GM.Spec.AstWF) ----------
+
+type posDumper struct {
+	src  []byte
+	ids  map[ast.Node]int
+	toks []string
+}
+
+func (d *posDumper) id(n ast.Node) int {
+	if v, ok := d.ids[n]; ok {
+		return v
+	}
+	v := len(d.ids)
+	d.ids[n] = v
+	return v
+}
+
+func segTok(s text.Segment) string {
+	return strconv.Itoa(s.Start) + ":" + strconv.Itoa(s.Stop) + ":" + strconv.Itoa(s.Padding)
+}
+
+func segsTok(ss []text.Segment) string {
+	if len(ss) == 0 {
+		return "_"
+	}
+	p := make([]string, len(ss))
+	for i, s := range ss {
+		p[i] = segTok(s)
+	}
+	return strings.Join(p, ",")
+}
+
+func idsTok(v []int) string {
+	if len(v) == 0 {
+		return "_"
+	}
+	p := make([]string, len(v))
+	for i, x := range v {
+		p[i] = strconv.Itoa(x)
+	}
+	return strings.Join(p, ",")
+}
+
+func (d *posDumper) node(n ast.Node, depth int) {
+	id := d.id(n)
+	var fwdNodes []ast.Node
+	for c := n.FirstChild(); c != nil && len(fwdNodes) < 1<<16; c = c.NextSibling() {
+		fwdNodes = append(fwdNodes, c)
+	}
+	var bwdNodes []ast.Node
+	for c := n.LastChild(); c != nil && len(bwdNodes) < 1<<16; c = c.PreviousSibling() {
+		bwdNodes = append(bwdNodes, c)
+	}
+	var fwd, bwd []int
+	for _, c := range fwdNodes {
+		fwd = append(fwd, d.id(c))
+	}
+	for i := len(bwdNodes) - 1; i >= 0; i-- {
+		bwd = append(bwd, d.id(bwdNodes[i]))
+	}
+	parent := -1
+	if p := n.Parent(); p != nil {
+		if v, ok := d.ids[p]; ok {
+			parent = v
+		} else {
+			parent = -2
+		}
+	}
+	t := "b"
+	switch n.Type() {
+	case ast.TypeDocument:
+		t = "d"
+	case ast.TypeInline:
+		t = "i"
+	}
+	var segs []text.Segment
+	isLines := false
+	level := 0
+	switch v := n.(type) {
+	case *ast.Text:
+		segs = []text.Segment{v.Segment}
+	case *ast.RawHTML:
+		for i := 0; i < v.Segments.Len(); i++ {
+			segs = append(segs, v.Segments.At(i))
+		}
+	case *ast.Heading:
+		level = v.Level
+	case *ast.Emphasis:
+		level = v.Level
+	}
+	if n.Type() != ast.TypeInline {
+		if ls := n.Lines(); ls != nil {
+			isLines = true
+			for i := 0; i < ls.Len(); i++ {
+				segs = append(segs, ls.At(i))
+			}
+		}
+	}
+	var xsegs []text.Segment
+	switch v := n.(type) {
+	case *ast.FencedCodeBlock:
+		if v.Info != nil {
+			xsegs = append(xsegs, v.Info.Segment)
+		}
+	case *ast.HTMLBlock:
+		if v.HasClosure() {
+			xsegs = append(xsegs, v.ClosureLine)
+		}
+	}
+	d.toks = append(d.toks, n.Kind().String(), t, strconv.Itoa(id), strconv.Itoa(parent), strconv.Itoa(n.ChildCount()), b2s(n.HasChildren()),
+		idsTok(fwd), idsTok(bwd), segsTok(segs), b2s(isLines), segsTok(xsegs), strconv.Itoa(level))
+	if depth < 4000 {
+		for _, c := range fwdNodes {
+			d.node(c, depth+1)
+		}
+	}
+	d.toks = append(d.toks, ")")
+}
+
+// DumpPositions returns the token stream for `wfast check`.
+func DumpPositions(root ast.Node, src []byte) string {
+	d := &posDumper{src: src, ids: map[ast.Node]int{}}
+	d.node(root, 0)
+	return strings.Join(d.toks, " ")
+}
